@@ -65,6 +65,7 @@ ExpandMut(k, mut, a) ==
       x1 == SubSeq(pr, f.doff + 1, f.doff + 32)
   IN
   CASE mut = "ok"        -> VN(f, pr, Extra0)
+    [] mut = "zeroat"    -> LET fz == RfProofZ(BaseHdr(k), HPt, Extra0, p) IN V(fz, fz.proof, Extra0)   \* the prover CHOSE s_p = 0: equation closes, must be refused
     [] mut = "splusn"    -> V(f, RfSetScalar(f, p, Add(RfScalarAt(f, p), N)), Extra0)          \* s -> s + n (same residue)
     [] mut = "sn"        -> V(f, RfSetScalar(f, p, N), Extra0)
     [] mut = "szero"     -> V(f, RfSetScalar(f, p, Zero), Extra0)
@@ -122,6 +123,7 @@ Cases ==
   \cup { M("rej", 6, "splusn", a) : a \in { 0, 13, 29 } }
   \cup (IF Thorough THEN { M("rej", 7, "splusn", a) : a \in { 0, 50, 95 } } ELSE { })
   \cup { M("rej", k, m, 0) : k \in { 3, 4 }, m \in { "sn", "szero", "splus1", "smax" } }
+  \cup { M("rej", k, "zeroat", a) : k \in { 3, 4, 6 }, a \in 0..7 }            \* every forged position (a wraps over the forged positions of the proof)
   \cup { M("rej", k, m, 0) : k \in { 1, 3, 4 }, m \in { "trail", "trunc1", "trunc32", "ext32" } }
   \cup { M("rej", 4, "spare", a) : a \in { 1, 4, 7 } } \cup { M("rej", 6, "spare", a) : a \in { 1, 7 } } \cup { M("rej", 23, "spare", a) : a \in { 3, 7 } }
   \cup { M("rej", 4, "signflip", 0), M("rej", 6, "signflip", 8), M("rej", 23, "signflip", 2) }
